@@ -434,8 +434,17 @@ func (l *chanListener) Close() error              { return nil }
 
 type countingListener struct{ net.Listener }
 
+// unit outage: while set, the peers hang up on every connection as soon as it is accepted (before the TLS handshake):
+// the client's attempt to bring a connection up fails
+var refuseConns, refusedConns int64
+
 func (l countingListener) Accept() (net.Conn, error) {
 	c, err := l.Listener.Accept()
+	for err == nil && atomic.LoadInt64(&refuseConns) != 0 {
+		atomic.AddInt64(&refusedConns, 1)
+		c.Close()
+		c, err = l.Listener.Accept()
+	}
 	if err != nil {
 		return nil, err
 	}
@@ -962,6 +971,158 @@ func judgeSetup(c setupCase) *h.Verdict {
 		return v.Failf("connections-left-after-slow-setup", "%d subscribers x %d updates against peers that take %d ms to bring a connection up: the peers still hold %d connections open 6 s after the last request returned", c.Subs, c.N, c.DelayMs, n)
 	}
 	return v
+}
+
+// Outage: for a while the peers hang up on every connection attempt; more than a hundred requests fail to bring a
+// connection up (one after the other or several at a time).  Every one of them returns, and once the peers are back the
+// next requests are served like any other; nothing is left behind.
+type outageCase struct {
+	Fails int `json:"fails"` // updates sent during the outage
+	Par   int `json:"par"`   // how many at a time
+	After int `json:"after"` // subscribers served after the outage
+}
+
+func judgeOutage(c outageCase) *h.Verdict {
+	v := &h.Verdict{NonTrivial: true}
+	now := time.Now()
+	nf := &models.ChfConvergedChargingNfIdentification{NFName: "smf", NodeFunctionality: "SMF"}
+	mk := func(supi string, used int32) models.ChfConvergedChargingChargingDataRequest {
+		return models.ChfConvergedChargingChargingDataRequest{SubscriberIdentifier: supi, ChargingId: 1, NfConsumerIdentification: nf, InvocationTimeStamp: &now, InvocationSequenceNumber: 1,
+			MultipleUnitUsage: []models.ChfConvergedChargingMultipleUnitUsage{{RatingGroup: 1, RequestedUnit: &models.RequestedUnit{TotalVolume: 10000},
+				UsedUnitContainer: []models.ChfConvergedChargingUsedUnitContainer{{QuotaManagementIndicator: models.QuotaManagementIndicator_ONLINE_CHARGING, TotalVolume: used, LocalSequenceNumber: 1}}}}}
+	}
+	// sessions opened while the peers still answer
+	type sub struct{ supi, ref string }
+	var subs []sub
+	for i := 0; i < c.Par; i++ {
+		supi := env.NewSupi()
+		plansMu.Lock()
+		plans[supi[5:]] = &subPlan{steps: []Step{{Abmf: Action{Kind: "prompt"}, Reserve: Action{Kind: "prompt"}}}}
+		plansMu.Unlock()
+		_, loc, pd := verifapi.Create(mk(supi, 0))
+		if pd != nil {
+			return v.Failf("HARNESS-create", "%v", pd)
+		}
+		subs = append(subs, sub{supi, loc[strings.LastIndex(loc, "/")+1:]})
+	}
+	before := atomic.LoadInt64(&refusedConns)
+	atomic.StoreInt64(&refuseConns, 1)
+	stuck := int64(0)
+	var wg sync.WaitGroup
+	for w := 0; w < c.Par; w++ {
+		wg.Add(1)
+		go func(w int) {
+			defer wg.Done()
+			for k := 0; k < c.Fails/c.Par+1; k++ {
+				done := make(chan struct{})
+				go func() {
+					verifapi.Update(mk(subs[w].supi, usedPerUpdate), subs[w].ref)
+					close(done)
+				}()
+				select {
+				case <-done:
+				case <-time.After(35 * time.Second):
+					atomic.AddInt64(&stuck, 1)
+					return
+				}
+			}
+		}(w)
+	}
+	wg.Wait()
+	atomic.StoreInt64(&refuseConns, 0)
+	failed := atomic.LoadInt64(&refusedConns) - before
+	if stuck > 0 {
+		return v.Failf("blocked/update-never-returns/during-outage", "while the peers hung up on every connection attempt (%d attempts so far) %d of %d concurrent updates did not return within 35 s\nstuck goroutines:\n%s", failed, stuck, c.Par, dumpStuck())
+	}
+	if failed >= 100 {
+		v.Label("connection-attempts-failed>=100")
+	}
+	// the peers are back
+	var b Batch
+	for i := 0; i < c.After; i++ {
+		b.Scripts = append(b.Scripts, Script{Steps: []Step{{Abmf: Action{Kind: "prompt"}, Reserve: Action{Kind: "prompt"}}}})
+	}
+	res := make([]scriptResult, c.After)
+	for i := range b.Scripts {
+		wg.Add(1)
+		go func(i int) {
+			defer wg.Done()
+			res[i] = runScript(b.Scripts[i])
+		}(i)
+	}
+	wg.Wait()
+	for _, r := range res {
+		if r.sig != "" {
+			return v.Failf(r.sig, "after an outage in which %d connection attempts failed: %s", failed, r.msg)
+		}
+		if r.lastGranted < 0 {
+			return v.Failf("blocked/later-request-does-not-complete/after-outage", "after an outage in which %d connection attempts failed the peers answer at once, yet a new subscriber's request was not granted anything (took %.1f s, answer %q)", failed, r.lastTook.Seconds(), r.lastPd)
+		}
+	}
+	for _, sb := range subs {
+		if verifapi.Locked(sb.supi) {
+			return v.Failf("blocked/lock-held-after-outage", "a subscriber whose updates failed during the outage is still locked")
+		}
+	}
+	if n, sample := leftoverTasks(); n > 0 {
+		return v.Failf("tasks-left-after-outage", "%d failed connection attempts, then %d subscribers served: %d goroutines are left inside the CHF's Diameter client code, e.g.\n%s", failed, c.After, n, sample)
+	}
+	if n := connectionsLeft(); n > 0 {
+		return v.Failf("connections-left-after-outage", "%d failed connection attempts, then %d subscribers served: the peers still hold %d connections open 6 s after the last request returned", failed, c.After, n)
+	}
+	return v
+}
+
+func TestC18Outage(t *testing.T) {
+	h.Run(t, "C18", "outage", func(t *rapid.T) outageCase {
+		return outageCase{Fails: rapid.IntRange(110, h.Scale(160, 600)).Draw(t, "fails"), Par: rapid.SampledFrom([]int{1, 4, 16}).Draw(t, "par"), After: rapid.IntRange(20, 40).Draw(t, "after")}
+	}, judgeOutage)
+}
+
+// Crowd: many subscribers charged at the same moment while the peers take a while to answer - more requests
+// outstanding at a peer than any limit a client may have.  Every request is answered from its own exchange and nothing
+// is left behind.
+type crowdCase struct {
+	Subs   int `json:"subs"`
+	N      int `json:"n"`
+	SlowMs int `json:"slowMs"`
+}
+
+func judgeCrowd(c crowdCase) *h.Verdict {
+	v := &h.Verdict{NonTrivial: true}
+	v.Label("requests-outstanding-at-a-peer>=60")
+	var b Batch
+	for i := 0; i < c.Subs; i++ {
+		var sc Script
+		for j := 0; j < c.N; j++ {
+			sc.Steps = append(sc.Steps, Step{Abmf: Action{Kind: "slow", Ms: c.SlowMs}, Reserve: Action{Kind: "slow", Ms: c.SlowMs / 2}})
+		}
+		b.Scripts = append(b.Scripts, sc)
+	}
+	stepGates = nil
+	for j := 0; j <= c.N; j++ {
+		g := &sync.WaitGroup{}
+		g.Add(c.Subs)
+		stepGates = append(stepGates, g)
+	}
+	bv := judgeBatch(b)
+	stepGates = nil
+	if bv.Failed() {
+		return bv
+	}
+	if n, sample := leftoverTasks(); n > 0 {
+		return v.Failf("tasks-left-after-crowd", "%d subscribers x %d updates, all at the same moment, against peers that answer after %d ms left %d goroutines inside the CHF's Diameter client code, e.g.\n%s", c.Subs, c.N, c.SlowMs, n, sample)
+	}
+	if n := connectionsLeft(); n > 0 {
+		return v.Failf("connections-left-after-crowd", "%d subscribers x %d updates, all at the same moment, against peers that answer after %d ms: the peers still hold %d connections open 6 s after the last request returned", c.Subs, c.N, c.SlowMs, n)
+	}
+	return v
+}
+
+func TestC18Crowd(t *testing.T) {
+	h.Run(t, "C18", "crowd", func(t *rapid.T) crowdCase {
+		return crowdCase{Subs: rapid.IntRange(60, h.Scale(100, 400)).Draw(t, "subs"), N: rapid.IntRange(2, 3).Draw(t, "n"), SlowMs: rapid.SampledFrom([]int{300, 600, 1000}).Draw(t, "slowMs")}
+	}, judgeCrowd)
 }
 
 func TestC18SlowSetup(t *testing.T) {
